@@ -2,6 +2,7 @@
    Statements only: every proof is `exact lemma` (lemmas in Res/PipelineTotalProofs.v, Res/PipelineWfProofs.v). *)
 From KV Require Import Res.Pipeline Res.PipelineProofs Res.PipelineTotalProofs Res.PipelineWfProofs.
 From KV Require Import Res.RenameProofs.
+From KV Require Glob.TotalityMore.
 
 (* the modelled build never diverges: for ALL kustomization trees, ill-formed documents included, whatever the
    go-yaml resolution oracle and the sort options (no function of the pipeline is fuelled) *)
@@ -71,3 +72,19 @@ Theorem PIPE_hash_clash_is_error :
                         ("metadata", Map [("name", Scalar TStr SPlain "a-bdg947hgcc")])]]]) = Err.
 Proof. exact build_panic_hash_clash. Qed.
 Print Assumptions PIPE_hash_clash_is_error.
+
+(* ---- the whole-build statement of C12 over the integrated model, joined with Props/C12.v --------------------
+   FULL STATEMENT of the property: forall t, safe (build ... t). PARTIAL: the never-diverges half holds for every
+   tree; the never-panics half holds on [tree_wf] trees - the complement of the PrevIds finding (a ',' in a name or
+   namespace) and of the empty-name trigger of the name-reference setter (C12_total_core_nameref_transform). The
+   model does not carry the other finding classes (non-mapping / empty-key annotations: Res/BuildAnnot.v and
+   C12_*_panic_iff; custom schema: C12_init_schema_custom_panic_iff; non-string data keys: search only). *)
+Theorem C12_build_total_partial :
+  forall nonstr o t,
+    build nonstr o t <> Diverge /\ (tree_wf t -> KV.Glob.TotalityMore.safe (build nonstr o t)).
+Proof.
+  exact (fun nonstr o t =>
+           conj (build_never_diverges nonstr o t)
+                (fun H => conj (build_no_panic nonstr o t H) (build_never_diverges nonstr o t))).
+Qed.
+Print Assumptions C12_build_total_partial.
